@@ -11,7 +11,21 @@ outcome statistics, per-function native call counts and any non-fatal findings (
 import json
 import os
 import sys
+import threading
 import time
+
+HANG_EXIT = 77
+
+
+def watchdog(state, limit, marker):
+    """a native call that does not return is not interruptible from Python: a second thread ends the process"""
+    while True:
+        time.sleep(0.5)
+        idx, t = state[0], state[1]
+        if idx is not None and time.time() - t > limit:
+            with open(marker, "w") as fh:
+                fh.write(str(idx))
+            os._exit(HANG_EXIT)
 
 
 def tuplify(x):
@@ -44,6 +58,9 @@ def main():
     t0 = time.time()
     deadline = t0 + float(job.get("max_s", 1e9))
     stopped_at = None
+    wd = [None, 0.0]
+    threading.Thread(target=watchdog, args=(wd, float(job.get("case_timeout", 60)), job["progress"] + ".hang"),
+                     daemon=True).start()
     for idx in range(int(job["start"]), len(cases)):
         case = cases[idx]
         fam = C.FAMILIES[case[0]]
@@ -54,6 +71,8 @@ def main():
             stopped_at = idx
             break
         os.pwrite(pfd, b"%-15d\n" % idx, 0)
+        wd[1] = time.time()
+        wd[0] = idx
         P.set_place(C.place_of(case))
         try:
             out = fam.run(case)
@@ -85,6 +104,7 @@ def main():
             findings.append({"idx": idx, "kind": out.split(":")[0], "detail": out})
         k = grp + "|" + out
         outcomes[k] = outcomes.get(k, 0) + 1
+    wd[0] = None
     os.pwrite(pfd, b"%-15s\n" % b"done", 0)
     os.close(pfd)
     declared = {lib: sorted(v) for lib, v in P.DECLARED.items()}
